@@ -96,11 +96,48 @@ def check(repo: Repo, R) -> None:
     from . import c06 as _c06
     R.run(_c06.check, repo, shared_retag(R, lambda r: "C02.9-module-name-clash-refused" if r.startswith("C06.2") else None,
                                         "two different modules of one qualified name (a parent and a module below it) are both exported under it"))
+    R.run(checked_then_editable, repo, R, "C02.11-checked-modules-are-frozen")
     R.run(dead_guards, repo, R, "C02.6-no-dead-guards", [("_elaborated", "Module", F_MODULE), ("_pre_flattening_io", "Module", F_MODULE)])
     R.floor("C02.1-live-checking-passes", 2)
     R.floor("C02.3-dispatch-complete", 4)
     R.floor("C02.4-guard-inventory", 20)
     R.floor("C02.5-index-bounds", 5)
+
+
+def checked_then_editable(repo: Repo, R, rule: str):
+    """A check that is remembered per module (the pass's done-set makes every later call skip the module) is only as good
+    as the module is unchangeable from then on.  The refusal of additions keys on one attribute; the rule finds the pass
+    that sets it and requires that no checking pass completes on a module *as a separate, earlier step*: otherwise a
+    failure elsewhere in between leaves a module that is checked, remembered as checked — and still editable."""
+    fi, entries = default_passes(repo)
+    fa = repo.func(F_MODULE, "_add")
+    noret = noreturn_set(repo)
+    guard_attr = None
+    for n in au.walk_no_nested(fa.node):
+        if isinstance(n, ast.If) and au.raises(n.body, noret) != au.raises(n.orelse, noret):
+            for x in ast.walk(n.test):
+                if isinstance(x, ast.Attribute) and isinstance(x.value, ast.Name) and x.value.id == fa.node.args.args[0].arg and x.attr.startswith("_"):
+                    guard_attr = x.attr
+    if guard_attr is None:
+        raise AnalysisError(f"idiom-unknown: the attribute the freeze guard of {fa.site} tests")
+    marker = None
+    for i, (e, c) in enumerate(entries):
+        m = repo.find_method(c, "elaborate_module") if c is not None else None
+        if m is not None and any(isinstance(x, ast.Attribute) and isinstance(x.ctx, ast.Store) and x.attr == guard_attr for x in ast.walk(m.node)):
+            marker = i
+    if marker is None:
+        raise AnalysisError(f"idiom-unknown: no pass of the default list sets `{guard_attr}`")
+    emb = repo.func(F_BASE, "ElabPass.elaborate_module_base")
+    memo_tied = False
+    for n in au.walk_no_nested(emb.node):
+        if isinstance(n, ast.If) and ".done" in ast.unparse(n.test) and any(isinstance(x, ast.Return) for x in n.body):
+            memo_tied = guard_attr in ast.unparse(n.test)
+    early_checks = [c.name for i, (e, c) in enumerate(entries) if i < marker and c is not None and (derives(repo, c, "ConnTypes") or derives(repo, c, "Orphanage")) and c.name not in ("ConnTypes", "Orphanage")]
+    ok = memo_tied or not early_checks
+    R.check(ok, rule, key_of(fi, "checked-then-editable"), fi.site,
+            f"additions are refused once `{guard_attr}` is set — by {entries[marker][1].name}, entry {marker} of the default list; the final checks {early_checks} complete on a module (and are remembered in their done-sets"
+            + (", trusted only for frozen modules)" if memo_tied else ", unconditionally)") + " as separate, earlier passes: " + ("no window" if ok else "between them and the mark a failure elsewhere in the design leaves the module checked, remembered as checked, and editable"),
+            why="a design with one unnamed module fails in MarkModules; a healthy sibling that was already re-checked can now be given a width-mismatched instance, and the next to_proto skips every check for it and returns the package")
 
 
 # --------------------------------------------------------------------------
